@@ -23,6 +23,7 @@ type K1 struct {
 	live    int
 	relSeq  int
 	start   time.Time
+	wake    chan struct{} // poked whenever an operation parks or a task ends
 
 	Steps    int
 	MaxSteps int
@@ -37,7 +38,7 @@ type K1 struct {
 	Instants []time.Duration
 	// StepHook runs on the root at every scheduling step (e.g. "cancel the
 	// parent context at step k").
-	StepHook func(step int)
+	StepHook func(step int) (acted bool)
 
 	Stuck   bool // tasks alive, nothing parked, no timer ever fires
 	Overrun bool // MaxSteps exceeded (infrastructure, not a violation)
@@ -59,7 +60,7 @@ func RunBubble(t *testing.T, env *Env, body func(k *K1)) (deadlock string) {
 		}
 	}()
 	synctest.Test(t, func(t *testing.T) {
-		k := &K1{env: env, MaxSteps: 20000, start: time.Now()}
+		k := &K1{env: env, MaxSteps: 20000, start: time.Now(), wake: make(chan struct{}, 1)}
 		env.K1 = k
 		body(k)
 		env.SimTime = time.Since(k.start)
@@ -69,6 +70,9 @@ func RunBubble(t *testing.T, env *Env, body func(k *K1)) (deadlock string) {
 
 // Now is the fake-clock offset since the start of the run.
 func (k *K1) Now() time.Duration { return time.Since(k.start) }
+
+// Start is the fake-clock instant at which the run began.
+func (k *K1) Start() time.Time { return k.start }
 
 // Go starts a registered task inside the bubble.
 func (k *K1) Go(name string, fn func()) {
@@ -80,6 +84,7 @@ func (k *K1) Go(name string, fn func()) {
 			k.env.mu.Lock()
 			k.live--
 			k.env.mu.Unlock()
+			k.poke()
 		}()
 		fn()
 	}()
@@ -92,6 +97,7 @@ func (k *K1) park(o *Op, ctx context.Context) *Op {
 	e.mu.Lock()
 	k.pending = append(k.pending, o)
 	e.mu.Unlock()
+	k.poke()
 	var done <-chan struct{}
 	if ctx != nil {
 		done = ctx.Done()
@@ -149,7 +155,10 @@ func (k *K1) Run() {
 		}
 		k.Steps++
 		if k.StepHook != nil && !k.Settle {
-			k.StepHook(k.Steps)
+			if k.StepHook(k.Steps) {
+				// the hook changed the world (e.g. cancelled a context): let it settle first
+				continue
+			}
 		}
 		if len(ops) == 0 {
 			// only a timer (or nothing at all) can make progress
@@ -158,7 +167,9 @@ func (k *K1) Run() {
 				return
 			}
 			idle++
-			time.Sleep(time.Hour)
+			if k.sleep(time.Hour) {
+				idle = 0
+			}
 			continue
 		}
 		idle = 0
@@ -169,7 +180,7 @@ func (k *K1) Run() {
 			d := k.chooseAdvance()
 			e.appendHist(fmt.Sprintf("clock +%v", d))
 			e.Fault("clock-advance")
-			time.Sleep(d)
+			k.sleep(d)
 			continue
 		}
 		o := ops[e.Tape.Choose(len(ops), "next")]
@@ -191,9 +202,37 @@ func (k *K1) Run() {
 	}
 }
 
+func (k *K1) poke() {
+	select {
+	case k.wake <- struct{}{}:
+	default:
+	}
+}
+
+// sleep lets fake time pass for at most d, but returns as soon as anything
+// new parks or a task ends (so that the simulator never charges fake time to
+// code that is ready to run).  Reports whether it was interrupted.
+func (k *K1) sleep(d time.Duration) bool {
+	select {
+	case <-k.wake:
+	default:
+	}
+	tm := time.NewTimer(d)
+	defer tm.Stop()
+	select {
+	case <-k.wake:
+		return true
+	case <-tm.C:
+		return false
+	}
+}
+
 func (k *K1) mayAdvance(ops []*Op) bool {
 	all := true
 	for _, o := range ops {
+		if o.Urgent {
+			return false
+		}
 		if !o.cancellable {
 			all = false
 		}
@@ -233,7 +272,12 @@ func (k *K1) SettleAll() {
 	save := k.env.Tape.Benign
 	k.env.Tape.Benign = true
 	k.Run()
-	time.Sleep(24 * time.Hour)
+	for i := 0; i < 8; i++ {
+		if !k.sleep(24 * time.Hour) {
+			break
+		}
+		k.Run()
+	}
 	synctest.Wait()
 	k.Run()
 	k.env.Tape.Benign = save
